@@ -392,6 +392,12 @@ func validatePageSettings(settings *PageSettings) error {
 		}
 	}
 
+	if settings.Size != PageSizeCustom {
+		if _, exists := predefinedSizes[settings.Size]; !exists {
+			return fmt.Errorf("未知的页面尺寸: %q", string(settings.Size))
+		}
+	}
+
 	// 验证方向
 	if settings.Orientation != OrientationPortrait && settings.Orientation != OrientationLandscape {
 		return errors.New("无效的页面方向")
